@@ -678,6 +678,10 @@ fn parse_create_db_command(command: &mut std::str::SplitN<&str>) -> Result<Reque
             ""
         }
     };
+    // The name becomes part of the names of the database's files
+    if name.contains('/') || name.contains('\\') {
+        return Err(String::from("Invalid database name"));
+    }
     let mut rest = match command.next() {
         Some(rest) => {
             log::debug!("CreateDb rest command {}", rest);
